@@ -30,7 +30,7 @@ pub static DEF: PropDef = PropDef {
 fn cases(t: Tier) -> u64 {
   match t {
     Tier::Quick => 24_000,
-    Tier::Thorough => 500_000,
+    Tier::Thorough => 150_000,
   }
 }
 
